@@ -320,7 +320,6 @@ Definition ep_enable_swap (w : world) (c addr ltok orig unlock amt : Z) : result
   do pe <- registered w addr;
   let p := pe_p pe in
   check (p_state p =? ST_PartialActive) else EState;
-  check (0 <? amt) else EGuard;
   check is_locked_tok ltok else EGuard;
   check pe_lp pe else EGuard;
   check (orig =? addr) else EGuard;
